@@ -821,7 +821,9 @@ def main(tier: str) -> int:
         p["ignore"] = noise
         used = {f"{o['pid']}|{b}{sfx}" for o in p["ops"] if o["op"] == "eager" for b in (0, 1) for sfx in ("", "|jit")}
         p["expect_eager"] = {k: v for k, v in eager_exp.items() if k in used}
-    plans = enum_plans + cold_plans + hist_plans
+    # the listed known finding's probe first (it must be observed on every run), then cold-process faults and
+    # histories, then the bulk enumeration: under load the start deadline cuts enumeration shards, nothing else
+    plans = cold_plans[-1:] + cold_plans[:-1] + hist_plans + enum_plans
     results = co.run_plans(plans, timeout=max(900.0, budget), deadline=t0 + budget)
     stats: Counter = Counter()
     samples: list = []
